@@ -140,7 +140,8 @@ def check_info(u: int, qs: int, qb: int, rc: bool, x0: int, y0: int, e0: int, x1
     rc = True if rc else False
     o = "r" if rc else "f"
 
-    # ---- programme of the adapter stubs: every match has score 1, so the flagged orientation wins (or the forward one, rc False)
+    # ---- programme of the adapter stubs (all numbers are made concrete first: print() would otherwise realise them one by
+    # one, which costs CrossHair a fork per field); every match has score 1, so the flagged orientation wins (or the forward one, rc False)
     coords = ((x0, y0, e0), (x1, y1, e1))
     shared = {"cur": "f"}
     programme = []                                        # (kind, x, y, errors, adapter name in the row)
@@ -148,17 +149,17 @@ def check_info(u: int, qs: int, qb: int, rc: bool, x0: int, y0: int, e0: int, x1
         kinds = shape[1]
         for k, kind in enumerate(kinds):
             x, y, e = coords[k]
-            programme.append((kind, _conc(x, 0, n), _conc(y, 0, n), e, "ad1"))
+            programme.append((kind, _conc(x, 0, n), _conc(y, 0, n), _conc(e, _rng("e%d" % k)[0], _rng("e%d" % k)[1]), "ad1"))
         stub = OrientedStub("ad1", {o: [(kind, x, y, 1, e) for kind, x, y, e, _ in programme]}, fwd_alphabet=FWD_ALPHABET, shared=shared)
         adapters = [stub]
     else:
         _, fp, bp = shape
         if fp:
-            programme.append(("before", _conc(x0, 0, n), _conc(y0, 0, n), e0, "L;1"))
+            programme.append(("before", _conc(x0, 0, n), _conc(y0, 0, n), _conc(e0, _rng("e0")[0], _rng("e0")[1]), "L;1"))
         if bp:
-            programme.append(("after", _conc(x1, 0, n), _conc(y1, 0, n), e1, "L;2"))
-        front = OrientedStub("Lf", {o: [("before", programme[0][1], programme[0][2], 1, e0)] if fp else [None]}, fwd_alphabet=FWD_ALPHABET, shared=shared)
-        back = OrientedStub("Lb", {o: [("after", programme[-1][1], programme[-1][2], 1, e1)] if bp else [None]}, fwd_alphabet=FWD_ALPHABET, shared=shared)
+            programme.append(("after", _conc(x1, 0, n), _conc(y1, 0, n), _conc(e1, _rng("e1")[0], _rng("e1")[1]), "L;2"))
+        front = OrientedStub("Lf", {o: [("before", programme[0][1], programme[0][2], 1, programme[0][3])] if fp else [None]}, fwd_alphabet=FWD_ALPHABET, shared=shared)
+        back = OrientedStub("Lb", {o: [("after", programme[-1][1], programme[-1][2], 1, programme[-1][3])] if bp else [None]}, fwd_alphabet=FWD_ALPHABET, shared=shared)
         adapters = [_Linked(front, back, front_required=fp, back_required=bp, name="L")]
 
     # ---- the real modifiers in the order of the pipeline: -u, quality trimming, adapter trimming (with or without --revcomp)
@@ -272,7 +273,8 @@ def _add(name, param, parts=("no5", "5removed"), timeout=300, thorough_only=Fals
 
 
 _ONE = {"e1": (0, 0)}
-_TWO = {"u": (-1, 0), "qs": (0, 0), "qb": (0, 0), "e1": (1, 1)}
+_TWO = {"u": (-1, -1), "qs": (0, 0), "qb": (0, 0), "e0": (0, 0), "e1": (1, 1)}      # quick: one base removed at the 3' end by -u
+_TWO0 = {"u": (-1, 0), "qs": (0, 0), "qb": (0, 0), "e1": (1, 1)}
 _TWO5 = {"u": (0, 1), "qs": (0, 1), "qb": (0, 0), "e0": (1, 1), "e1": (0, 0)}
 
 # reads without match: a single -1 row, whatever was removed before
@@ -291,19 +293,21 @@ for _kinds in (("before", "after"), ("after", "before"), ("before", "before"), (
     _nm = "".join(k[0] for k in _kinds)
     _add("plain/two_rounds/%s" % _nm, {"mode": "plain", "shape": ("single", _kinds), "times": 2, "ranges": _TWO}, parts=("no5",))
 _add("plain/two_rounds/ba", {"mode": "plain", "shape": ("single", ("before", "after")), "times": 2, "ranges": _TWO5}, parts=("5removed",))
-_add("revcomp/two_rounds/ba/rc", {"mode": "revcomp", "rc": True, "shape": ("single", ("before", "after")), "times": 2, "ranges": dict(_TWO, u=(0, 1))}, parts=("no5",))
+_add("revcomp/two_rounds/ba/rc", {"mode": "revcomp", "rc": True, "shape": ("single", ("before", "after")), "times": 2, "ranges": dict(_TWO, u=(1, 1))}, parts=("no5",))
 _add("revcomp/two_rounds/ab/forward", {"mode": "revcomp", "rc": False, "shape": ("single", ("after", "before")), "times": 2, "ranges": _TWO}, parts=("no5",))
 # linked adapters
 for _fp, _bp in ((True, True), (True, False), (False, True)):
     _add("plain/linked/front=%s/back=%s" % (_fp, _bp), {"mode": "plain", "shape": ("linked", _fp, _bp), "ranges": _TWO if _fp and _bp else dict(_ONE, e1=(0, 1))}, parts=("no5",))
 _add("plain/linked/front=True/back=True", {"mode": "plain", "shape": ("linked", True, True), "ranges": _TWO5}, parts=("5removed",))
-_add("revcomp/linked/front=True/back=True/rc", {"mode": "revcomp", "rc": True, "shape": ("linked", True, True), "ranges": dict(_TWO, u=(0, 1))}, parts=("no5",))
+_add("revcomp/linked/front=True/back=True/rc", {"mode": "revcomp", "rc": True, "shape": ("linked", True, True), "ranges": dict(_TWO, u=(1, 1))}, parts=("no5",))
 # thorough: wider pre-trimming for two rounds / linked
 _WIDE = {"u": (-2, 0), "qs": (0, 0), "qb": (0, 1), "e1": (1, 1)}
 for _kinds in (("before", "after"), ("after", "before")):
     _add("plain/two_rounds/%s/wide" % "".join(k[0] for k in _kinds), {"mode": "plain", "shape": ("single", _kinds), "times": 2, "ranges": _WIDE}, parts=("no5",), timeout=1500, thorough_only=True)
 _add("plain/linked/front=True/back=True/wide", {"mode": "plain", "shape": ("linked", True, True), "ranges": _WIDE}, parts=("no5",), timeout=1500, thorough_only=True)
-_add("revcomp/two_rounds/ab/rc", {"mode": "revcomp", "rc": True, "shape": ("single", ("after", "before")), "times": 2, "ranges": dict(_TWO, u=(0, 1))}, parts=("no5",), thorough_only=True)
+_add("revcomp/two_rounds/ab/rc", {"mode": "revcomp", "rc": True, "shape": ("single", ("after", "before")), "times": 2, "ranges": dict(_TWO0, u=(0, 1))}, parts=("no5",), timeout=1500, thorough_only=True)
+for _kinds in (("before", "before"), ("after", "after")):
+    _add("plain/two_rounds/%s/u=-1..0" % "".join(k[0] for k in _kinds), {"mode": "plain", "shape": ("single", _kinds), "times": 2, "ranges": _TWO0}, parts=("no5",), timeout=1500, thorough_only=True)
 _add("plain/one_match/after/len6", {"mode": "plain", "shape": ("single", ("after",)), "seq": TEXT, "ranges": _ONE}, parts=("no5",), timeout=1500, thorough_only=True)
 
 
@@ -317,7 +321,7 @@ def describe():
                    "matches": "none; one 5' or 3' match; two rounds (--times 2) of every kind sequence; one linked match (both parts, 5' part only, 3' part only)",
                    "coordinates": "every 0 <= start <= stop <= len(read) symbolic, clamped by the stub into the text it is shown (C01 contract relative to the read the adapter stage received)",
                    "errors": "0..1 symbolic per match (one of the two pinned in two-match shapes)", "revcomp": "orientation flag symbolic (one-match shapes) or per condition",
-                   "two-match shapes": "-u in {-1,0} (no5) resp. {0,1} with 5' quality trimming 0..1 (5removed); thorough: -u -2..0 and 3' quality trimming 0..1"},
+                   "two-match shapes": "quick: -u -1 (no5; -u 1 under --revcomp with the flag set) resp. -u in {0,1} with 5' quality trimming 0..1 (5removed); thorough: -u -2..0 and 3' quality trimming 0..1"},
         "outside_bounds": ["reads longer than 6, more than two rounds", "paired-end info files (R1 only is written)", "the sequence/quality columns of the -1 row (the statement only asks for the row)"],
         "stubs": ["OrientedStub (harness.c16_revcomp): match_to returns an arbitrary match whose coordinates lie inside the text it is shown (C01), programmed for the forward text or for its reverse complement",
                   "quality_trim_index stub: any 0 <= start <= stop <= len (C13 contract)", "nextseq_trim_index stub: any 0 <= index <= len (C13 contract)",
